@@ -6,15 +6,96 @@ From MptV Require Import Base.Mem C15.RefcountModel C15.RefcountSpec C15.Refcoun
 Local Open Scope nat_scope.
 
 Ltac inv_ok H := inversion H; subst; clear H.
-Ltac red_let H := cbn beta iota zeta in H.
 
 Lemma Refines_good s ss : Refines s ss -> Good s. Proof. intros H; apply H. Qed.
 Lemma Refines_hs s ss : Refines s ss -> shs ss = hs s. Proof. intros H; apply H. Qed.
 Lemma Refines_len s ss : Refines s ss -> length (shs ss) = NSLOT.
 Proof. intros ((I & _) & HS & _). rewrite HS. apply I. Qed.
 
+Lemma Refines_sput s s' ss d v : Refines s ss -> Good s' -> fr s s' -> hs s' = set_nth d v (hs s) ->
+  Refines s' (sput ss d v).
+Proof.
+  intros RF G' F H. apply (Refines_frame s s' ss _ RF G' F). rewrite (Refines_hs s ss RF). exact H.
+Qed.
+
 (* ---------- unref of what a slot holds: OUnref, ORefFini, XDrop ---------- *)
 Lemma p_unref_fr s i s' t : p_unref s i = Ok (s', t) -> fr s s'.
 Proof.
-  unfold p_unref, m_take. red_let ltac:(idtac).
-Abort.
+  unfold p_unref, m_take. cbn beta iota zeta.
+  destruct (unref_opt _ _) as [s2| |] eqn:U; cbn [bind]; try discriminate.
+  intros X; inv_ok X. apply unref_opt_fr in U. destruct U as [F _]. exact F.
+Qed.
+
+Lemma sim_unref s ss i : Refines s ss -> exists s', p_unref s i = Ok (s', OD) /\ Refines s' (sput ss i None).
+Proof.
+  intros RF. destruct (p_unref_ok s i (Refines_good _ _ RF)) as (s' & E & G' & _ & H').
+  exists s'. split; [exact E|]. apply (Refines_sput s s' ss i None RF G' (p_unref_fr _ _ _ _ E) H').
+Qed.
+
+(* ---------- addref through the vtable, store on success: OAddref, ODefer ---------- *)
+Lemma sim_addref s ss o d si : Refines s ss -> slot s si = Some o -> slot s d = None -> d < NSLOT ->
+  exists s' r, p_addref s o d = Ok (s', r) /\
+    Refines s' (if shareable ss o then sput ss d (Some o) else ss) /\
+    (r =? 0)%N = negb (shareable ss o) /\
+    (shareable ss o = true ->
+     r = match skind_at ss o with Some k => if is_static k then 1%N else (stotal ss o + 1)%N | None => 0%N end).
+Proof.
+  intros RF S Hs Hd. pose proof (Refines_good _ _ RF) as G.
+  destruct (p_addref_ok s o d si G S Hs Hd) as (s' & r & E & G' & _).
+  exists s', r. split; [exact E|]. unfold p_addref in E.
+  destruct (m_addref s o) as [[s1 r1]| |] eqn:A; cbn [bind] in E; try discriminate.
+  destruct (m_addref_fr s o s1 r1 A) as [F1 H1].
+  destruct (m_addref_res s ss o s1 r1 RF (H3_slot s si o S) A) as [Q1 Q2].
+  destruct (r1 =? 0)%N eqn:Z; inv_ok E.
+  - rewrite Z in Q1. destruct (shareable ss o); [discriminate|]. split; [|split; [assumption|discriminate]].
+    apply (Refines_same s s' ss RF G' F1 H1).
+  - rewrite Z in Q1. destruct (shareable ss o); [|discriminate]. split; [|split; [assumption|exact Q2]].
+    apply (Refines_sput s _ ss d (Some o) RF G' F1). cbn [m_put hs]. rewrite H1. reflexivity.
+Qed.
+
+(* ---------- share what slot si holds into slot d, releasing what d held: the assignments ---------- *)
+(* retain the source, then replace the target *)
+Lemma replace_fr s1 d v s' : (let '(s2, old) := m_take s1 d in do s3 <- unref_opt s2 old; Ok (m_put s3 d v)) = Ok s' ->
+  fr s1 s' /\ hs s' = set_nth d v (hs s1).
+Proof.
+  unfold m_take. cbn beta iota zeta.
+  destruct (unref_opt _ _) as [s3| |] eqn:U; cbn [bind]; try discriminate.
+  intros X; inv_ok X. apply unref_opt_fr in U. destruct U as [F H]. split; [exact F|].
+  cbn [m_put hs]. rewrite H. cbn [hs]. apply set_nth_twice.
+Qed.
+
+Lemma sim_conv s ss si d : Refines s ss -> d < NSLOT ->
+  exists s' t, p_conv s si d = Ok (s', t) /\ Refines s' (fst (s_share ss si d)) /\
+    t = (if snd (s_share ss si d) then OD else OE).
+Proof.
+  intros RF Hd. pose proof (Refines_good _ _ RF) as G.
+  destruct (p_conv_ok s si d G Hd) as (s' & t & E & G' & _). exists s', t. split; [exact E|].
+  unfold p_conv in E. destruct (retain s (slot s si)) as [[s1 ok]| |] eqn:R; cbn [bind] in E; try discriminate.
+  destruct (retain_fr _ _ _ _ R) as [F1 H1].
+  pose proof (retain_res s ss _ _ _ RF (fun o Ho => H3_slot s si o Ho) R) as Q. rewrite <- (sslot_ref s ss RF) in Q.
+  unfold s_share. rewrite <- Q. destruct ok; cbn [negb fst snd] in *.
+  - destruct (m_take s1 d) as [s2 old] eqn:T. destruct (unref_opt s2 old) as [s3| |] eqn:U; cbn [bind] in E; try discriminate.
+    inv_ok E. split; [|reflexivity].
+    destruct (replace_fr s1 d (slot s si) (m_put s3 d (slot s si))) as [F2 H2]; [rewrite T, U; reflexivity|].
+    rewrite (sslot_ref s ss RF). apply (Refines_sput s _ ss d _ RF G' (fr_trans _ _ _ F1 F2)). congruence.
+  - inv_ok E. split; [|reflexivity]. apply (Refines_same s s' ss RF G' F1 H1).
+Qed.
+
+(* traits init: the target is empty *)
+Lemma sim_refinit s ss si d : Refines s ss -> slot s d = None -> d < NSLOT ->
+  exists s' t, p_refinit s si d = Ok (s', t) /\ Refines s' (fst (s_share ss si d)) /\
+    t = (if snd (s_share ss si d) then ORet (if is_none (sslot ss si) then 0 else 1) else OE).
+Proof.
+  intros RF Hs Hd. pose proof (Refines_good _ _ RF) as G.
+  destruct (p_refinit_ok s si d G Hs Hd) as (s' & t & E & G' & _). exists s', t. split; [exact E|].
+  unfold p_refinit in E. unfold s_share. rewrite (sslot_ref s ss RF).
+  destruct (slot s si) as [o|] eqn:S; cbn [shareable_opt is_none].
+  - destruct (m_addref s o) as [[s1 r1]| |] eqn:A; cbn [bind] in E; try discriminate.
+    destruct (m_addref_fr s o s1 r1 A) as [F1 H1].
+    destruct (m_addref_res s ss o s1 r1 RF (H3_slot s si o S) A) as [Q1 _].
+    destruct (r1 =? 0)%N eqn:Z; inv_ok E; destruct (shareable ss o); try discriminate; cbn [fst snd]; (split; [|reflexivity]).
+    + apply (Refines_same s s' ss RF G' F1 H1).
+    + apply (Refines_sput s _ ss d (Some o) RF G' F1). cbn [m_put hs]. rewrite H1. reflexivity.
+  - inv_ok E. cbn [fst snd]. split; [|reflexivity].
+    apply (Refines_sput s s' ss d None RF G' (fr_refl _)). symmetry. apply set_nth_id. exact Hs.
+Qed.
